@@ -120,23 +120,16 @@ func (c *Cache) configure(options ...Option) {
 }
 
 // Refresh rescans the CDI Spec directories and refreshes the Cache.
-// In manual refresh mode the cache is always refreshed. In auto-
-// refresh mode the cache is only refreshed if it is out of date.
+// An explicit refresh always rescans, also in auto-refresh mode: changes
+// which produce no event in a watched directory (the target of a symbolic
+// link appearing, changing or going away, a link given as Spec directory
+// being removed or pointed elsewhere) are picked up here at the latest.
 func (c *Cache) Refresh() error {
 	c.Lock()
 	defer c.Unlock()
 
-	// force a refresh in manual mode
-	if refreshed, err := c.refreshIfRequired(!c.autoRefresh); refreshed {
-		return err
-	}
-
-	// collect and return cached errors, much like refresh() does it
-	errs := []error{}
-	for _, specErrs := range c.errors {
-		errs = append(errs, errors.Join(specErrs...))
-	}
-	return errors.Join(errs...)
+	_, err := c.refreshIfRequired(true)
+	return err
 }
 
 // Refresh the Cache by rescanning CDI Spec directories and files.
@@ -215,7 +208,7 @@ func (c *Cache) refreshIfRequired(force bool) (bool, error) {
 	// We need to refresh if
 	// - it's forced by an explicit call to Refresh() in manual mode
 	// - a missing Spec dir appears (added to watch) in auto-refresh mode
-	if force || (c.autoRefresh && c.watch.update(c.dirErrors)) {
+	if (c.autoRefresh && c.watch.update(c.dirErrors)) || force {
 		return true, c.refresh()
 	}
 	return false, nil
